@@ -511,7 +511,7 @@ LINT = (
 	.anchor(VALIDATION, 'PragmaOnceValidator.reset', {})
 	.anchor(VALIDATION, 'PragmaOnceValidator.check', {
 		0: ('lic_open', 'bytes'), 5: ('lic_close', 'bytes'), 11: ('pp_include', 'bytes'), 14: ('empty_after_bound', 'Z'), 15: ('empty_after_op', 'op'),
-		16: ('pp_hash', 'bytes'), 24: ('pragma_once', 'bytes')})
+		17: ('pp_hash', 'bytes'), 27: ('pragma_once', 'bytes')})
 	.anchor(VALIDATION, 'PragmaOnceValidator.finalize', {})
 	.anchor(VALIDATION, 'RegionValidator.__init__', {})
 	.anchor(VALIDATION, 'RegionValidator.reset', {})
